@@ -18,7 +18,6 @@ use std::fmt;
 use std::str::FromStr;
 
 use crate::message::Qclass;
-use crate::util::Caseless;
 
 /// Represents a class in the DNS.
 ///
@@ -60,10 +59,10 @@ impl FromStr for Class {
     type Err = &'static str;
 
     fn from_str(text: &str) -> Result<Self, Self::Err> {
-        match Caseless(text) {
-            Caseless("IN") => Ok(Self::IN),
-            Caseless("CH") => Ok(Self::CH),
-            Caseless("HS") => Ok(Self::HS),
+        match text.to_ascii_uppercase().as_str() {
+            "IN" => Ok(Self::IN),
+            "CH" => Ok(Self::CH),
+            "HS" => Ok(Self::HS),
             _ => {
                 if text
                     .get(0..5)
